@@ -251,7 +251,7 @@ theorem commitMF_spec (s : State) :
   | some y =>
     obtain ⟨f, ub⟩ := y
     simp only
-    generalize hs1 : ({ disk := s.disk, h := { s.h with files := setLastUB s.h.files { ub with ext := some (s.next, s.next + 1) } }, next := s.next + 2 } : State) = s1
+    generalize hs1 : mfPrep s { ub with ext := some (s.next, s.next + 1) } = s1
     have hl1 : lastFile s1.h.files = some (f, { ub with ext := some (s.next, s.next + 1) }) := by
       rw [← hs1]; exact lastFile_setLastUB _ _ _ _ hl
     rcases commitPlain_spec s1 with hf | ⟨f', ub', p, h1, h2, h3, h4, h5, h6⟩
@@ -272,7 +272,7 @@ theorem commitMF_spec (s : State) :
       · rw [h6]
         simp only
         subst hs1
-        simp only [setLastUB_setLastUB, mfCommitUB, true_and]
+        simp only [mfPrep, setLastUB_setLastUB, mfCommitUB, true_and]
         intro g
         by_cases hex : (getF (setF s.disk f (File.cont { rid := ub.rid, idx := ub.idx, pid := ub.pid, prev := ub.prev, hash := some p, ext := some (s.next, s.next + 1) } p)) (manifestFile f)).isSome
         · simp [Res.W, hex]
@@ -574,7 +574,7 @@ theorem commitMF_fresh (d : Disk) (k nx : Nat) (c : Bool) (n : Name) (p : List N
   rcases commitMF_spec { disk := d, next := nx, h := freshHandle c n k } with hf | ⟨f, ub, p', h1, _, _, _, h5, h6, h7, _, h9, h10, h11⟩
   · exfalso
     apply hf.1
-    simp [commitMF, freshHandle, lastFile, setLastUB, commitPlain, hasWritable, hp]
+    simp [commitMF, mfPrep, freshHandle, lastFile, setLastUB, commitPlain, hasWritable, hp]
   · simp only [freshHandle, lastFile, Option.some.injEq, Prod.mk.injEq] at h1
     obtain ⟨rfl, rfl⟩ := h1
     simp only at h5
@@ -734,5 +734,27 @@ theorem mergeFiles_spec (s : State) (t : Name) :
               · left
                 simp only [getF_setF_ne _ _ _ _ hside]
 
+
+
+theorem commitPlain_eq (s : State) {f : Name} {ub : UB} {p : List Nat}
+    (hc : s.h.closed = false) (ha : s.h.allow = true) (hw : hasWritable s.h = true)
+    (hl : lastFile s.h.files = some (f, ub)) (hp : payloadOf s.disk f = some p) :
+    commitPlain s =
+      { st := { s with disk := setF s.disk f (.cont { ub with hash := some p } p),
+                       h := { s.h with files := setLastUB s.h.files { ub with hash := some p },
+                                       lastRW := false } },
+        out := .ok, written := [f] } := by
+  simp [commitPlain, hc, ha, hw, hl, hp]
+
+theorem commitMF_out_ok (s : State) {f : Name} {ub : UB} {p : List Nat}
+    (hc : s.h.closed = false) (ha : s.h.allow = true) (hw : hasWritable s.h = true)
+    (hl : lastFile s.h.files = some (f, ub)) (hp : payloadOf s.disk f = some p) :
+    (commitMF s).out = .ok := by
+  unfold commitMF
+  simp only [hl]
+  have := commitPlain_eq (mfPrep s { ub with ext := some (s.next, s.next + 1) }) (f := f) (p := p)
+    hc ha (by simp only [mfPrep]; rw [hasWritable_setLastUB]; exact hw)
+    (lastFile_setLastUB _ _ _ _ hl) hp
+  rw [this]
 
 end MetadorModel.Record
